@@ -21,7 +21,7 @@ RULE = ("hyp: entry point (the 4 SequenceParameters show_/save_ phase/Uversky me
         "savefig/show): one marker per sequence at (f+, f-) resp. (mean net charge, Uversky hydropathy) of the object's own getters; title, "
         "axis limits and label texts as requested; getFig=True returns a non-None object exposing the figure; a save writes a non-empty "
         "file; the marker lies in the closed polygon (1e-9) whose index equals get_phasePlotRegion(); linear plots have exactly N bars, bar "
-        "k centred at position k+1 with the height of get_linear_*(w)[1][k]. Non-trivial: a label, non-default limits or title, or >=2 "
+        "k centred at position k+1 with the height of get_linear_*(w)[1][k]. homopolymers: every residue type as a chain of 1..45 (thorough 120) residues (extreme coordinates) through the show entry points. Non-trivial: a label, non-default limits or title, an extreme coordinate (homopolymer), or >=2 "
         "sequences (region part: every triple); distinct by the whole case.")
 ASSUMPTIONS = ["figure checks inspect matplotlib artists (scatter offsets, annotation texts, polygon vertices, bar rectangles), not pixels",
                "the written file's format, legend and font size are not part of the statement and are not asserted",
@@ -192,7 +192,7 @@ def check_in_region(ctx, case, polys, x, y, region, what):
 def check_diagram(ctx, case):
     objs = [util.sp(s) for s in case["seqs"]]
     n = len(objs)
-    nt = bool(case.get("labels")) or n >= 2 or any(k in case for k in ("title", "xLim", "yLim"))
+    nt = bool(case.get("labels")) or n >= 2 or any(k in case for k in ("title", "xLim", "yLim", "extreme"))
     ctx.count(case, nontrivial=nt, classes=["entry:%s-%s-%s" % (case["how"], case["entry"], case["kind"]), "n=%d" % n] +
               (["getFig"] if case.get("getFig") else []) + (["labels"] if case.get("labels") else []))
     path = os.path.join(tmpdir(), "fig.%s" % case.get("saveFormat", "png"))
@@ -334,7 +334,7 @@ def hyp_case(draw):
     if draw(st.booleans()):
         case["labels"] = [draw(LABEL) for _ in range(n)]
     if draw(st.booleans()):
-        case["title"] = draw(st.text(alphabet="abcdefgh XYZ09:", min_size=1, max_size=12))
+        case["title"] = draw(st.one_of(st.text(alphabet="abcdefgh XYZ09:", min_size=1, max_size=12), st.sampled_from(["", " ", "0", "None"])))
     if draw(st.integers(0, 2)) == 0:
         case["xLim"] = draw(LIM)
     if draw(st.integers(0, 2)) == 0:
@@ -378,10 +378,22 @@ def enum_entry_cases(tier, seed):
                 yield {"what": "linear", "seq": lin, "w": w, "profile": prof, "how": how, "saveFormat": "svg"}
 
 
+def homopolymer_cases(tier, seed):
+    """The extremes of both coordinate systems at every length: a chain of one residue type sits on an edge or corner of the
+    diagram (f+ = 1, f- = 1, origin) resp. at that residue's own hydropathy / net charge (poly-I: the top of the Uversky axis)."""
+    hi = 45 if tier == "quick" else 120
+    for n in range(1, hi + 1):
+        for a in ref.AA:
+            yield {"what": "diagram", "entry": ("sp", "single", "multiple")[n % 3], "kind": "uversky", "how": "show", "getFig": True, "seqs": [a * n], "extreme": True}
+            if a in "KRDEGH":
+                yield {"what": "diagram", "entry": ("single", "multiple", "sp")[n % 3], "kind": "phase", "how": "show", "getFig": True, "seqs": [a * n], "extreme": True}
+
+
 def parts(tier):
     return [
         Part("enum-regions", "enum", check=check, cases=region_cases, exhaustive=True, shards={"quick": 16, "thorough": 16}),
         Part("enum-entry-points", "enum", check=check, cases=enum_entry_cases, exhaustive=False, shards={"quick": 16, "thorough": 16}),
+        Part("enum-homopolymers", "enum", check=check, cases=homopolymer_cases, exhaustive=False, shards={"quick": 16, "thorough": 16}),
         Part("hyp-plots", "hyp", check=check, strategy=lambda t: hyp_case(),
              examples={"quick": 1600, "thorough": 12800}, shards={"quick": 16, "thorough": 16}),
     ]
